@@ -106,6 +106,12 @@ func (h *runner) check(q query, phase string) {
 				if q.limit > 0 {
 					cls = "equal-timestamps-limit"
 				}
+				if q.agg {
+					cls = "" // an aggregate has no rows of one timestamp to reorder
+					if q.hasBoolFirst() {
+						cls = "first-bool-ties"
+					}
+				}
 				h.violation(firstLine+i, cls, fmt.Sprintf("ds=%d %s answers %s under [%s] and %s under [%s] (%s); data: %s; history: %s", h.idx, q.sql(), clip(rawTexts[0]), h.configs[0].text(), clip(rawTexts[i]), h.configs[i].text(), phase, clip(h.d.text()), h.d.history()))
 				break
 			}
